@@ -1,5 +1,1283 @@
+import Mathlib.Algebra.Group.Commute.Defs
+import Mathlib.Algebra.Group.Basic
+import Mathlib.Algebra.BigOperators.Group.List.Basic
 import PyCliffordModel.Proofs.Rotate
-/-! # Proofs/Transform — helper lemmas for C03 (combine/transform as a homomorphism) -/
-namespace PC
+/-! # Proofs/Transform — helper lemmas for C03 (combine/transform as a homomorphism)
 
+Part 1 (`PCHom`): ordered block products in an abstract monoid with a central involution (regrouping lemma).
+Part 2 (`PC.Tr`): the normalized `n`-qubit Pauli operators form such a monoid; bridge to `combineAux`/`transform`;
+masks (`gather`/`scatter`/`embed`); rotation maps. Everything specific to C03 lives in `PC.Tr` to avoid name clashes.
+-/
+
+/-! ## abstract part -/
+namespace PCHom
+open PC (Q PStr xorQ xorS zxSum b2i)
+variable {M : Type} [Monoid M]
+
+def blk (ab : M × M) (xz : Q) : M := (if xz.1 then ab.1 else 1) * (if xz.2 then ab.2 else 1)
+
+def prodB : List (M × M) → PStr → M
+  | ab :: r, c :: cs => blk ab c * prodB r cs
+  | _, _ => 1
+
+/-- number of sign flips: Σ z_m ∧ x'_m -/
+def flips : PStr → PStr → Nat
+  | c :: cs, d :: ds => (if c.2 && d.1 then 1 else 0) + flips cs ds
+  | _, _ => 0
+
+structure Good (e : M) (ab : M × M) : Prop where
+  a2 : ab.1 * ab.1 = 1
+  b2 : ab.2 * ab.2 = 1
+  anti : ab.2 * ab.1 = e * (ab.1 * ab.2)
+
+theorem blk_mul (e : M) (hc : ∀ m : M, Commute e m) (ab : M × M) (g : Good e ab)
+    (c d : Q) :
+    blk ab c * blk ab d = (if c.2 && d.1 then e else 1) * blk ab (xorQ c d) := by
+  obtain ⟨a, b⟩ := ab
+  obtain ⟨x, z⟩ := c
+  obtain ⟨x', z'⟩ := d
+  have a2 : a * a = 1 := g.a2
+  have b2 : b * b = 1 := g.b2
+  have anti : b * a = e * (a * b) := g.anti
+  have hea : e * a = a * e := (hc a).eq
+  have hba_b : b * (a * b) = e * a := by
+    rw [← mul_assoc, anti, mul_assoc, mul_assoc, b2, mul_one]
+  have haab : a * (a * b) = b := by rw [← mul_assoc, a2, one_mul]
+  cases x <;> cases z <;> cases x' <;> cases z' <;> simp [blk, xorQ, a2, b2, anti, mul_assoc]
+  · exact hba_b
+  · exact haab
+  · rw [← mul_assoc, ← hea, mul_assoc, haab]
+  · rw [hba_b, ← mul_assoc, ← hea, mul_assoc, a2, mul_one]
+
+def CrossComm (ab : M × M) (r : List (M × M)) : Prop :=
+  ∀ cd ∈ r, Commute ab.1 cd.1 ∧ Commute ab.1 cd.2 ∧ Commute ab.2 cd.1 ∧ Commute ab.2 cd.2
+
+inductive GoodL (e : M) : List (M × M) → Prop
+  | nil : GoodL e []
+  | cons {ab r} : Good e ab → CrossComm ab r → GoodL e r → GoodL e (ab :: r)
+
+theorem blk_comm_prodB (ab : M × M) (r : List (M × M)) (h : CrossComm ab r) (c : Q)
+    (cs : PStr) : Commute (blk ab c) (prodB r cs) := by
+  induction r generalizing cs with
+  | nil => cases cs <;> simp [prodB]
+  | cons cd r ih =>
+    cases cs with
+    | nil => simp [prodB]
+    | cons d ds =>
+      have h1 := h cd (by simp)
+      have h' : CrossComm ab r := fun x hx => h x (by simp [hx])
+      have hb : Commute (blk ab c) (blk cd d) := by
+        obtain ⟨x, z⟩ := c; obtain ⟨x', z'⟩ := d
+        cases x <;> cases z <;> cases x' <;> cases z' <;>
+          simp [blk, h1.1, h1.2.1, h1.2.2.1, h1.2.2.2, Commute.mul_left, Commute.mul_right]
+      exact hb.mul_right (ih h' ds)
+
+theorem prodB_mul (e : M) (hc : ∀ m : M, Commute e m) (r : List (M × M))
+    (g : GoodL e r) (cs ds : PStr) (hl : cs.length = r.length) (hl2 : ds.length = r.length) :
+    prodB r cs * prodB r ds = e ^ flips cs ds * prodB r (xorS cs ds) := by
+  induction g generalizing cs ds with
+  | nil =>
+    have h1 : cs = [] := by simpa using hl
+    have h2 : ds = [] := by simpa using hl2
+    subst h1 h2; simp [prodB, flips]
+  | @cons ab r hg hx _ ih =>
+    cases cs with
+    | nil => simp at hl
+    | cons c cs =>
+      cases ds with
+      | nil => simp at hl2
+      | cons d ds =>
+        have hl' : cs.length = r.length := by simpa using hl
+        have hl2' : ds.length = r.length := by simpa using hl2
+        have hcomm := blk_comm_prodB ab r hx d cs
+        simp only [prodB, flips, xorS]
+        calc blk ab c * prodB r cs * (blk ab d * prodB r ds)
+            = blk ab c * (prodB r cs * blk ab d) * prodB r ds := by simp [mul_assoc]
+          _ = blk ab c * (blk ab d * prodB r cs) * prodB r ds := by rw [hcomm.eq]
+          _ = (blk ab c * blk ab d) * (prodB r cs * prodB r ds) := by simp [mul_assoc]
+          _ = ((if c.2 && d.1 then e else 1) * blk ab (xorQ c d)) * (e ^ flips cs ds * prodB r (xorS cs ds)) := by
+                rw [blk_mul e hc ab hg, ih cs ds hl' hl2']
+          _ = e ^ ((if c.2 && d.1 then 1 else 0) + flips cs ds) * (blk ab (xorQ c d) * prodB r (xorS cs ds)) := by
+                have hcp := (hc (blk ab (xorQ c d))).pow_left (flips cs ds)
+                split <;> simp [pow_add, mul_assoc]
+                all_goals
+                  rw [← mul_assoc (blk ab (xorQ c d)), ← hcp.eq, mul_assoc]
+
+theorem flips_eq_zxSum (cs ds : PStr) : (flips cs ds : Int) = zxSum cs ds := by
+  induction cs generalizing ds with
+  | nil => simp [flips, zxSum]
+  | cons c cs ih =>
+    cases ds with
+    | nil => simp [flips, zxSum]
+    | cons d ds =>
+      obtain ⟨x, z⟩ := c; obtain ⟨x', z'⟩ := d
+      simp only [flips, zxSum, Int.natCast_add, ih]
+      cases z <;> cases x' <;> simp [b2i]
+
+end PCHom
+
+/-! ## the concrete monoid -/
+namespace PC
+namespace Tr
+
+/-- normalized `n`-qubit operators: a genuine monoid under `mul` -/
+def NP (n : Nat) : Type := {P : Pauli // P.g.length = n ∧ P.p % 4 = P.p}
+
+theorem pauli_ext {a b : Pauli} (hg : a.g = b.g) (hp : a.p = b.p) : a = b := by
+  cases a; cases b; simp at hg hp; simp [hg, hp]
+
+theorem NP.ext {n : Nat} {a b : NP n} (h : a.1 = b.1) : a = b := Subtype.ext h
+
+instance (n : Nat) : Monoid (NP n) where
+  mul a b := ⟨PC.mul a.1 b.1, by rw [length_mul _ _ (a.2.1.trans b.2.1.symm)]; exact a.2.1, by rw [mul_p]; omega⟩
+  one := ⟨⟨idStr n, 0⟩, length_idStr n, rfl⟩
+  mul_assoc a b c := Subtype.ext (PC.mul_assoc a.1 b.1 c.1 (a.2.1.trans b.2.1.symm) (b.2.1.trans c.2.1.symm))
+  one_mul a := by
+    apply Subtype.ext
+    show PC.mul ⟨idStr n, 0⟩ a.1 = a.1
+    have h := PC.mul_one_left a.1
+    rw [a.2.1, a.2.2] at h
+    exact h
+  mul_one a := by
+    apply Subtype.ext
+    show PC.mul a.1 ⟨idStr n, 0⟩ = a.1
+    have h := PC.mul_one_right a.1
+    rw [a.2.1, a.2.2] at h
+    exact h
+
+theorem NP.mul_val {n : Nat} (a b : NP n) : (a * b).1 = PC.mul a.1 b.1 := rfl
+theorem NP.one_val {n : Nat} : (1 : NP n).1 = ⟨idStr n, 0⟩ := rfl
+
+/-- `-1` -/
+def NP.e (n : Nat) : NP n := ⟨⟨idStr n, 2⟩, length_idStr n, rfl⟩
+
+theorem NP.e_comm {n : Nat} (m : NP n) : Commute (NP.e n) m := by
+  apply Subtype.ext
+  show PC.mul ⟨idStr n, 2⟩ m.1 = PC.mul m.1 ⟨idStr n, 2⟩
+  have h := mul_comm_acq ⟨idStr n, 2⟩ m.1
+  have h0 : acq (idStr n) m.1.g = 0 := acq_idStr_left _ _
+  have hr := mul_p_range m.1 ⟨idStr n, 2⟩
+  apply pauli_ext h.1
+  rw [h.2, h0]; omega
+
+theorem NP.e_pow_val {n : Nat} (k : Nat) : ((NP.e n) ^ k).1 = ⟨idStr n, (2 * (k : Int)) % 4⟩ := by
+  induction k with
+  | zero => rfl
+  | succ k ih =>
+    rw [pow_succ, NP.mul_val, ih]
+    have h1 : xorS (idStr n) (idStr n) = idStr n := by
+      have := xorS_self (idStr n); rwa [length_idStr] at this
+    have h2 : ipow (idStr n) (idStr n) = 0 := ipow_idStr_left _ _
+    apply pauli_ext
+    · exact h1
+    · show ((2 * (k : Int)) % 4 + 2 + ipow (idStr n) (idStr n)) % 4 = _
+      rw [h2]; push_cast; omega
+
+/-- project an operator to a normalized one (junk `1` when the length is wrong) -/
+def toNP (n : Nat) (R : Pauli) : NP n :=
+  if h : R.g.length = n then ⟨⟨R.g, R.p % 4⟩, h, by show R.p % 4 % 4 = R.p % 4; omega⟩ else 1
+
+theorem toNP_val {n : Nat} (R : Pauli) (h : R.g.length = n) : (toNP n R).1 = ⟨R.g, R.p % 4⟩ := by
+  simp [toNP, h]
+
+/-! ## bridge: `combineAux` is an ordered block product -/
+open PCHom
+
+def toPairs (n : Nat) : List Pauli → List (NP n × NP n)
+  | a :: b :: rest => (toNP n a, toNP n b) :: toPairs n rest
+  | _ => []
+
+theorem length_toPairs (n : Nat) : ∀ (M : List Pauli) (k : Nat), M.length = 2 * k → (toPairs n M).length = k
+  | [], k, h => by simp at h; simp [toPairs]; omega
+  | [a], k, h => by simp at h; omega
+  | a :: b :: rest, k, h => by
+    have := length_toPairs n rest (k - 1) (by simp at h; omega)
+    simp [toPairs, this]; simp at h; omega
+
+theorem mul_toNP {n : Nat} (acc : NP n) (a : Pauli) (h : a.g.length = n) : (acc * toNP n a).1 = mul acc.1 a := by
+  rw [NP.mul_val, toNP_val a h]
+  apply pauli_ext
+  · rfl
+  show (acc.1.p + a.p % 4 + ipow acc.1.g a.g) % 4 = (acc.1.p + a.p + ipow acc.1.g a.g) % 4
+  omega
+
+theorem flat_cons (q : Q) (qs : PStr) : flat (q :: qs) = q.1 :: q.2 :: flat qs := rfl
+
+/-- fold vs. product: the left fold of `pauli_combine` is the accumulator times the ordered block product -/
+theorem combineAux_eq_prodB (n : Nat) : ∀ (M : List Pauli) (k : Nat), M.length = 2 * k →
+    (∀ R ∈ M, R.g.length = n) → ∀ (g : PStr) (acc : NP n),
+    combineAux (flat g) M acc.1 = (acc * prodB (toPairs n M) g).1
+  | [], k, _, _, g, acc => by
+    cases g <;> simp [flat, combineAux, toPairs, prodB]
+  | [a], k, h, _, g, acc => by simp at h; omega
+  | a :: b :: rest, k, h, hl, g, acc => by
+    cases g with
+    | nil => simp [flat, combineAux, toPairs, prodB]
+    | cons q gs =>
+      obtain ⟨x, z⟩ := q
+      have ha : a.g.length = n := hl a (by simp)
+      have hb : b.g.length = n := hl b (by simp)
+      have ih := combineAux_eq_prodB n rest (k - 1) (by simp at h; omega)
+        (fun R hR => hl R (by simp [hR])) gs
+      simp only [flat_cons, combineAux, toPairs, prodB]
+      rw [← _root_.mul_assoc]
+      rw [← ih]
+      congr 1
+      cases x <;> cases z <;> simp [blk, mul_toNP, ha, hb]
+      rw [← _root_.mul_assoc, mul_toNP _ b hb, mul_toNP _ a ha]
+
+/-! ## a valid map gives a good list of blocks -/
+
+/-- the canonical commutation relations of the rows of a map (index form, as in `ValidMap`) -/
+def Sympl (M : List Pauli) : Prop := ∀ i j, i < M.length → j < M.length →
+    acq (rowAt M i).g (rowAt M j).g = if i / 2 = j / 2 ∧ i ≠ j then 1 else 0
+
+theorem rowAt_cons_succ (a : Pauli) (M : List Pauli) (i : Nat) : rowAt (a :: M) (i + 1) = rowAt M i := by
+  simp [rowAt]
+theorem rowAt_cons_zero (a : Pauli) (M : List Pauli) : rowAt (a :: M) 0 = a := by
+  simp [rowAt]
+theorem rowAt_of_lt (M : List Pauli) (i : Nat) (h : i < M.length) : rowAt M i = M[i] := by
+  simp [rowAt, h]
+theorem rowAt_mem (M : List Pauli) (i : Nat) (h : i < M.length) : rowAt M i ∈ M := by
+  rw [rowAt_of_lt M i h]; exact List.getElem_mem h
+
+theorem Sympl_tail (a b : Pauli) (rest : List Pauli) (h : Sympl (a :: b :: rest)) : Sympl rest := by
+  intro i j hi hj
+  have := h (i + 2) (j + 2) (by simp; omega) (by simp; omega)
+  rw [rowAt_cons_succ, rowAt_cons_succ, rowAt_cons_succ, rowAt_cons_succ] at this
+  rw [this]
+  have e1 : (i + 2) / 2 = i / 2 + 1 := by omega
+  have e2 : (j + 2) / 2 = j / 2 + 1 := by omega
+  simp [e1, e2]
+
+theorem Sympl_head (a b : Pauli) (rest : List Pauli) (h : Sympl (a :: b :: rest)) :
+    acq a.g b.g = 1 ∧ ∀ c ∈ rest, acq a.g c.g = 0 ∧ acq b.g c.g = 0 := by
+  refine ⟨?_, ?_⟩
+  · have := h 0 1 (by simp) (by simp)
+    simpa [rowAt_cons_succ, rowAt_cons_zero] using this
+  · intro c hc
+    obtain ⟨i, hi, rfl⟩ := List.getElem_of_mem hc
+    have h0 := h 0 (i + 2) (by simp) (by simp; omega)
+    have h1 := h 1 (i + 2) (by simp) (by simp; omega)
+    rw [rowAt_cons_succ, rowAt_cons_succ, rowAt_cons_zero, rowAt_of_lt rest i hi] at h0
+    rw [rowAt_cons_succ, rowAt_cons_succ, rowAt_cons_succ, rowAt_cons_zero, rowAt_of_lt rest i hi] at h1
+    simp at h0
+    simp at h1
+    exact ⟨h0, h1⟩
+
+theorem NP.e_mul_val {n : Nat} (X : NP n) : (NP.e n * X).1 = ⟨X.1.g, (X.1.p + 2) % 4⟩ := by
+  rw [NP.mul_val]
+  apply pauli_ext
+  · show xorS (idStr n) X.1.g = X.1.g
+    have := xorS_idStr_left X.1.g; rwa [X.2.1] at this
+  · show (2 + X.1.p + ipow (idStr n) X.1.g) % 4 = (X.1.p + 2) % 4
+    rw [ipow_idStr_left]; omega
+
+theorem toNP_commute {n : Nat} (a c : Pauli) (ha : a.g.length = n) (hc : c.g.length = n)
+    (h : acq a.g c.g = 0) : Commute (toNP n a) (toNP n c) := by
+  apply Subtype.ext
+  show PC.mul (toNP n a).1 (toNP n c).1 = PC.mul (toNP n c).1 (toNP n a).1
+  rw [toNP_val a ha, toNP_val c hc]
+  have hm := mul_comm_acq ⟨a.g, a.p % 4⟩ ⟨c.g, c.p % 4⟩
+  have hr := mul_p_range ⟨c.g, c.p % 4⟩ ⟨a.g, a.p % 4⟩
+  apply pauli_ext hm.1
+  rw [hm.2]; simp only [h]; omega
+
+theorem toNP_anti {n : Nat} (a b : Pauli) (ha : a.g.length = n) (hb : b.g.length = n)
+    (h : acq a.g b.g = 1) : toNP n b * toNP n a = NP.e n * (toNP n a * toNP n b) := by
+  apply Subtype.ext
+  rw [NP.e_mul_val, NP.mul_val, NP.mul_val, toNP_val a ha, toNP_val b hb]
+  have hm := mul_comm_acq ⟨b.g, b.p % 4⟩ ⟨a.g, a.p % 4⟩
+  have : acq b.g a.g = 1 := by rw [acq_symm]; exact h
+  apply pauli_ext
+  · exact hm.1
+  · show (PC.mul ⟨b.g, b.p % 4⟩ ⟨a.g, a.p % 4⟩).p = ((PC.mul ⟨a.g, a.p % 4⟩ ⟨b.g, b.p % 4⟩).p + 2) % 4
+    rw [hm.2]; simp only [this]; omega
+
+theorem toNP_sq {n : Nat} (a : Pauli) (ha : a.g.length = n) (hp : a.p % 2 = 0) : toNP n a * toNP n a = 1 := by
+  apply Subtype.ext
+  rw [NP.mul_val, toNP_val a ha, PC.mul_self, NP.one_val]
+  apply pauli_ext
+  · simp [ha]
+  · show 2 * (a.p % 4) % 4 = 0
+    omega
+
+theorem mem_toPairs (n : Nat) : ∀ (M : List Pauli) (cd : NP n × NP n), cd ∈ toPairs n M →
+    ∃ c d, c ∈ M ∧ d ∈ M ∧ cd = (toNP n c, toNP n d)
+  | [], cd, h => by simp [toPairs] at h
+  | [a], cd, h => by simp [toPairs] at h
+  | a :: b :: rest, cd, h => by
+    simp only [toPairs, List.mem_cons] at h
+    rcases h with h | h
+    · exact ⟨a, b, by simp, by simp, h⟩
+    · obtain ⟨c, d, hc, hd, e⟩ := mem_toPairs n rest cd h
+      exact ⟨c, d, by simp [hc], by simp [hd], e⟩
+
+theorem goodL_toPairs (n : Nat) : ∀ (M : List Pauli) (k : Nat), M.length = 2 * k →
+    (∀ R ∈ M, R.g.length = n ∧ R.p % 2 = 0) → Sympl M → GoodL (NP.e n) (toPairs n M)
+  | [], _, _, _, _ => GoodL.nil
+  | [a], k, h, _, _ => by simp at h; omega
+  | a :: b :: rest, k, h, hl, hs => by
+    have ha := hl a (by simp)
+    have hb := hl b (by simp)
+    have hrest : ∀ R ∈ rest, R.g.length = n ∧ R.p % 2 = 0 := fun R hR => hl R (by simp [hR])
+    obtain ⟨hab, hx⟩ := Sympl_head a b rest hs
+    refine GoodL.cons ⟨toNP_sq a ha.1 ha.2, toNP_sq b hb.1 hb.2, toNP_anti a b ha.1 hb.1 hab⟩ ?_
+      (goodL_toPairs n rest (k - 1) (by simp at h; omega) hrest (Sympl_tail a b rest hs))
+    intro cd hcd
+    obtain ⟨c, d, hc, hd, rfl⟩ := mem_toPairs n rest cd hcd
+    exact ⟨toNP_commute a c ha.1 (hrest c hc).1 (hx c hc).1, toNP_commute a d ha.1 (hrest d hd).1 (hx d hd).1,
+      toNP_commute b c hb.1 (hrest c hc).1 (hx c hc).2, toNP_commute b d hb.1 (hrest d hd).1 (hx d hd).2⟩
+
+/-! ## `transform` by a valid map is multiplicative -/
+
+theorem mapN_of_length (M : List Pauli) (n : Nat) (hM : M.length = 2 * n) : mapN M = n := by
+  unfold mapN; omega
+
+theorem combine_eq_prodB (n : Nat) (M : List Pauli) (hM : M.length = 2 * n) (hl : ∀ R ∈ M, R.g.length = n)
+    (g : PStr) : combine (mapN M) (flat g) M = (prodB (toPairs n M) g).1 := by
+  rw [mapN_of_length M n hM]
+  have h := combineAux_eq_prodB n M n hM hl g 1
+  rw [_root_.one_mul] at h
+  exact h
+
+theorem transform_eq_prodB (n : Nat) (M : List Pauli) (hM : M.length = 2 * n) (hl : ∀ R ∈ M, R.g.length = n)
+    (P : Pauli) : transform M P =
+      ⟨(prodB (toPairs n M) P.g).1.g, (P.p + p0 P.g + (prodB (toPairs n M) P.g).1.p) % 4⟩ := by
+  unfold transform
+  rw [combine_eq_prodB n M hM hl]
+
+theorem validMap_sympl (M : List Pauli) (n : Nat) (hM : ValidMap M n) : Sympl M := by
+  intro i j hi hj
+  exact hM.2.2 i j (by rw [← hM.1]; exact hi) (by rw [← hM.1]; exact hj)
+
+/-- the block-product form of the product of two images -/
+theorem prodB_mul_val (M : List Pauli) (n : Nat) (hM : ValidMap M n) (a b : PStr)
+    (ha : a.length = n) (hb : b.length = n) :
+    PC.mul (prodB (toPairs n M) a).1 (prodB (toPairs n M) b).1 =
+      ⟨(prodB (toPairs n M) (xorS a b)).1.g, (2 * zxSum a b + (prodB (toPairs n M) (xorS a b)).1.p) % 4⟩ := by
+  have hlen := length_toPairs n M n hM.1
+  have hg := goodL_toPairs n M n hM.1 hM.2.1 (validMap_sympl M n hM)
+  have h := prodB_mul (NP.e n) NP.e_comm (toPairs n M) hg a b (by rw [hlen]; exact ha) (by rw [hlen]; exact hb)
+  have hv := congrArg Subtype.val h
+  rw [NP.mul_val, NP.mul_val, NP.e_pow_val, flips_eq_zxSum] at hv
+  rw [hv]
+  have hX := (prodB (toPairs n M) (xorS a b)).2
+  apply pauli_ext
+  · show xorS (idStr n) _ = _
+    have := xorS_idStr_left (prodB (toPairs n M) (xorS a b)).1.g; rwa [hX.1] at this
+  · show (2 * zxSum a b % 4 + (prodB (toPairs n M) (xorS a b)).1.p + ipow (idStr n) _) % 4 =
+      (2 * zxSum a b + (prodB (toPairs n M) (xorS a b)).1.p) % 4
+    rw [ipow_idStr_left]; omega
+
+theorem transform_mul (M : List Pauli) (n : Nat) (hM : ValidMap M n) (P Q : Pauli)
+    (hP : P.g.length = n) (hQ : Q.g.length = n) :
+    PEq (transform M (mul P Q)) (mul (transform M P) (transform M Q)) := by
+  have hl : ∀ R ∈ M, R.g.length = n := fun R hR => (hM.2.1 R hR).1
+  rw [transform_eq_prodB n M hM.1 hl, transform_eq_prodB n M hM.1 hl, transform_eq_prodB n M hM.1 hl]
+  have h := prodB_mul_val M n hM P.g Q.g hP hQ
+  have hg := congrArg Pauli.g h
+  have hp := congrArg Pauli.p h
+  simp only [mul_g, mul_p] at hg hp
+  have h0 := p0_xorS P.g Q.g (hP.trans hQ.symm)
+  refine ⟨?_, ?_⟩
+  · simp only [mul_g]; exact hg.symm
+  · simp only [mul_p, mul_g]
+    rw [h0]
+    omega
+
+
+/-! ## unit strings, the identity, generators -/
+
+theorem unitX_succ_zero (n : Nat) : unitX (n + 1) 0 = (true, false) :: idStr n := by
+  unfold unitX idStr
+  rw [List.range_succ_eq_map]
+  simp [List.map_map, Function.comp_def]
+theorem unitX_succ_succ (n k : Nat) : unitX (n + 1) (k + 1) = (false, false) :: unitX n k := by
+  unfold unitX
+  rw [List.range_succ_eq_map]
+  simp [List.map_map, Function.comp_def]
+theorem unitZ_succ_zero (n : Nat) : unitZ (n + 1) 0 = (false, true) :: idStr n := by
+  unfold unitZ idStr
+  rw [List.range_succ_eq_map]
+  simp [List.map_map, Function.comp_def]
+theorem unitZ_succ_succ (n k : Nat) : unitZ (n + 1) (k + 1) = (false, false) :: unitZ n k := by
+  unfold unitZ
+  rw [List.range_succ_eq_map]
+  simp [List.map_map, Function.comp_def]
+
+theorem length_unitX (n k : Nat) : (unitX n k).length = n := by simp [unitX]
+theorem length_unitZ (n k : Nat) : (unitZ n k).length = n := by simp [unitZ]
+
+theorem p0Sum_map_x (f : Nat → Bool) (l : List Nat) : p0Sum (l.map fun i => (f i, false)) = 0 := by
+  induction l with
+  | nil => rfl
+  | cons a as ih => simp [p0Sum_cons, ih, b2i]
+theorem p0Sum_map_z (f : Nat → Bool) (l : List Nat) : p0Sum (l.map fun i => (false, f i)) = 0 := by
+  induction l with
+  | nil => rfl
+  | cons a as ih => simp [p0Sum_cons, ih, b2i]
+theorem p0_unitX (n k : Nat) : p0 (unitX n k) = 0 := by
+  unfold p0 unitX; rw [p0Sum_map_x]; rfl
+theorem p0_unitZ (n k : Nat) : p0 (unitZ n k) = 0 := by
+  unfold p0 unitZ; rw [p0Sum_map_z]; rfl
+
+theorem flat_idStr_succ (k : Nat) : flat (idStr (k + 1)) = false :: false :: flat (idStr k) := rfl
+
+/-- nothing selected: the accumulator is returned -/
+theorem combineAux_idStr (k : Nat) (rows : List Pauli) (acc : Pauli) :
+    combineAux (flat (idStr k)) rows acc = acc := by
+  induction k generalizing rows with
+  | zero => cases rows <;> rfl
+  | succ k ih =>
+    rw [flat_idStr_succ]
+    match rows with
+    | [] => rfl
+    | [r] => rfl
+    | r :: r' :: rest => simp only [combineAux]; exact ih rest
+
+theorem combineAux_unitX (k : Nat) : ∀ (n : Nat) (M : List Pauli) (acc : Pauli), k < n → M.length = 2 * n →
+    combineAux (flat (unitX n k)) M acc = mul acc (rowAt M (2 * k)) := by
+  induction k with
+  | zero =>
+    intro n M acc hk hM
+    match n, M, hk, hM with
+    | n + 1, a :: b :: rest, _, _ =>
+      rw [unitX_succ_zero, flat_cons]
+      simp only [combineAux]
+      rw [combineAux_idStr]; rfl
+    | n + 1, [], _, h => simp at h
+    | n + 1, [a], _, h => simp at h; omega
+  | succ k ih =>
+    intro n M acc hk hM
+    match n, M, hk, hM with
+    | n + 1, a :: b :: rest, hk, hM =>
+      rw [unitX_succ_succ, flat_cons]
+      simp only [combineAux, Bool.false_eq_true, ↓reduceIte]
+      rw [ih n rest acc (by omega) (by simp at hM; omega)]
+      have : 2 * (k + 1) = 2 * k + 1 + 1 := by omega
+      rw [this, rowAt_cons_succ, rowAt_cons_succ]
+    | n + 1, [], _, h => simp at h
+    | n + 1, [a], _, h => simp at h; omega
+
+theorem combineAux_unitZ (k : Nat) : ∀ (n : Nat) (M : List Pauli) (acc : Pauli), k < n → M.length = 2 * n →
+    combineAux (flat (unitZ n k)) M acc = mul acc (rowAt M (2 * k + 1)) := by
+  induction k with
+  | zero =>
+    intro n M acc hk hM
+    match n, M, hk, hM with
+    | n + 1, a :: b :: rest, _, _ =>
+      rw [unitZ_succ_zero, flat_cons]
+      simp only [combineAux]
+      rw [combineAux_idStr]; rfl
+    | n + 1, [], _, h => simp at h
+    | n + 1, [a], _, h => simp at h; omega
+  | succ k ih =>
+    intro n M acc hk hM
+    match n, M, hk, hM with
+    | n + 1, a :: b :: rest, hk, hM =>
+      rw [unitZ_succ_succ, flat_cons]
+      simp only [combineAux, Bool.false_eq_true, ↓reduceIte]
+      rw [ih n rest acc (by omega) (by simp at hM; omega)]
+      have : 2 * (k + 1) + 1 = 2 * k + 1 + 1 + 1 := by omega
+      rw [this, rowAt_cons_succ, rowAt_cons_succ]
+    | n + 1, [], _, h => simp at h
+    | n + 1, [a], _, h => simp at h; omega
+
+theorem transform_one (M : List Pauli) (n : Nat) (hM : M.length = 2 * n) :
+    transform M ⟨idStr n, 0⟩ = ⟨idStr n, 0⟩ := by
+  unfold transform combine
+  rw [mapN_of_length M n hM]
+  simp only [combineAux_idStr, p0_idStr]
+  rfl
+
+theorem transform_unitX (M : List Pauli) (n k : Nat) (hM : M.length = 2 * n) (hk : k < n)
+    (hR : (rowAt M (2 * k)).g.length = n) : PEq (transform M ⟨unitX n k, 0⟩) (rowAt M (2 * k)) := by
+  unfold transform combine
+  rw [mapN_of_length M n hM]
+  simp only [combineAux_unitX k n M _ hk hM, p0_unitX]
+  have h := PC.mul_one_left (rowAt M (2 * k))
+  rw [hR] at h
+  rw [h]
+  exact ⟨rfl, by simp only; omega⟩
+
+theorem transform_unitZ (M : List Pauli) (n k : Nat) (hM : M.length = 2 * n) (hk : k < n)
+    (hR : (rowAt M (2 * k + 1)).g.length = n) : PEq (transform M ⟨unitZ n k, 0⟩) (rowAt M (2 * k + 1)) := by
+  unfold transform combine
+  rw [mapN_of_length M n hM]
+  simp only [combineAux_unitZ k n M _ hk hM, p0_unitZ]
+  have h := PC.mul_one_left (rowAt M (2 * k + 1))
+  rw [hR] at h
+  rw [h]
+  exact ⟨rfl, by simp only; omega⟩
+
+/-- `transform` reads the phase of its argument additively -/
+theorem transform_of_g_eq (M : List Pauli) (X Y : Pauli) (h : X.g = Y.g) :
+    (transform M X).g = (transform M Y).g ∧ (transform M X).p % 4 = ((transform M Y).p + X.p - Y.p) % 4 := by
+  unfold transform
+  simp only [h]
+  exact ⟨trivial, by omega⟩
+
+theorem transform_congr (M : List Pauli) {X Y : Pauli} (h : PEq X Y) : PEq (transform M X) (transform M Y) := by
+  have := transform_of_g_eq M X Y h.1
+  have hp := h.2
+  exact ⟨this.1, by omega⟩
+
+theorem transform_phase (M : List Pauli) (P : Pauli) (k : Int) :
+    PEq (transform M ⟨P.g, P.p + k⟩) ⟨(transform M P).g, (transform M P).p + k⟩ := by
+  have := transform_of_g_eq M ⟨P.g, P.p + k⟩ P rfl
+  exact ⟨this.1, by have := this.2; simp only at this ⊢; omega⟩
+
+theorem length_transform (M : List Pauli) (n : Nat) (hM : M.length = 2 * n) (hl : ∀ R ∈ M, R.g.length = n)
+    (P : Pauli) : (transform M P).g.length = n := by
+  rw [transform_eq_prodB n M hM hl]
+  exact (prodB (toPairs n M) P.g).2.1
+
+theorem transform_acq (M : List Pauli) (n : Nat) (hM : ValidMap M n) (P Q : Pauli)
+    (hP : P.g.length = n) (hQ : Q.g.length = n) :
+    acq (transform M P).g (transform M Q).g = acq P.g Q.g := by
+  have h1 := transform_mul M n hM P Q hP hQ
+  have h2 := transform_mul M n hM Q P hQ hP
+  have hc := mul_comm_acq P Q
+  have hc' := mul_comm_acq (transform M P) (transform M Q)
+  have ht := transform_of_g_eq M (mul P Q) (mul Q P) hc.1
+  have b1 := acq_bit P.g Q.g
+  have b2 := acq_bit (transform M P).g (transform M Q).g
+  have e1 := h1.2; have e2 := h2.2; have e3 := hc.2; have e4 := hc'.2; have e5 := ht.2
+  omega
+
+theorem transform_hermitian (M : List Pauli) (n : Nat) (hM : ValidMap M n) (P : Pauli)
+    (hP : P.g.length = n) (hp : P.p % 2 = 0) : (transform M P).p % 2 = 0 := by
+  have h1 := transform_mul M n hM P P hP hP
+  rw [PC.mul_self, PC.mul_self, hP] at h1
+  have ht := transform_of_g_eq M ⟨idStr n, 2 * P.p % 4⟩ ⟨idStr n, 0⟩ rfl
+  rw [transform_one M n hM.1] at ht
+  have e1 := h1.2; have e2 := ht.2
+  simp only at e1 e2
+  omega
+
+/-! ## congruence and length lemmas for `mul`, `combineAux` -/
+
+theorem mul_congr_left {a a' : Pauli} (h : PEq a a') (r : Pauli) : PEq (mul a r) (mul a' r) := by
+  obtain ⟨hg, hp⟩ := h
+  refine ⟨by simp only [mul_g, hg], ?_⟩
+  simp only [mul_p, hg]; omega
+
+theorem combineAux_congr (c : List Bool) (rows : List Pauli) {a a' : Pauli} (h : PEq a a') :
+    PEq (combineAux c rows a) (combineAux c rows a') := by
+  induction c generalizing rows a a' with
+  | nil => simpa [combineAux] using h
+  | cons c0 cs ih =>
+    cases rows with
+    | nil => simpa [combineAux] using h
+    | cons r rs =>
+      simp only [combineAux]
+      cases c0
+      · simpa using ih rs h
+      · simpa using ih rs (mul_congr_left h r)
+
+theorem length_combineAux (n : Nat) (c : List Bool) (rows : List Pauli) (acc : Pauli)
+    (hl : ∀ R ∈ rows, R.g.length = n) (ha : acc.g.length = n) : (combineAux c rows acc).g.length = n := by
+  induction c generalizing rows acc with
+  | nil => simpa [combineAux] using ha
+  | cons c0 cs ih =>
+    cases rows with
+    | nil => simpa [combineAux] using ha
+    | cons r rs =>
+      simp only [combineAux]
+      have hr := hl r (by simp)
+      have hrs : ∀ R ∈ rs, R.g.length = n := fun R hR => hl R (by simp [hR])
+      cases c0
+      · simpa using ih rs acc hrs ha
+      · simpa using ih rs (mul acc r) hrs (by rw [length_mul _ _ (ha.trans hr.symm)]; exact ha)
+
+/-! ## masks: strings that vanish on / off the mask -/
+
+/-- `r` is the identity on every masked qubit -/
+def MaskedZero (m : List Bool) (r : PStr) : Prop := gather m r = idStr (maskCount m)
+/-- `r` is the identity on every unmasked qubit -/
+def OffZero (m : List Bool) (r : PStr) : Prop := scatter m r (idStr (maskCount m)) = idStr r.length
+
+theorem scatter_scatter (m : List Bool) (g s t : PStr) (ht : t.length = maskCount m) :
+    scatter m (scatter m g s) t = scatter m g t := by
+  induction m generalizing g s t with
+  | nil => simp [scatter_nil_left]
+  | cons b ms ih =>
+    cases g with
+    | nil => simp [scatter_nil_mid]
+    | cons q qs =>
+      cases b with
+      | false =>
+        rw [maskCount_cons_false] at ht
+        rw [scatter_cons_false, scatter_cons_false, scatter_cons_false, ih qs s t ht]
+      | true =>
+        rw [maskCount_cons_true] at ht
+        cases t with
+        | nil => simp at ht
+        | cons t0 ts =>
+          have ht' : ts.length = maskCount ms := by simpa using ht
+          cases s with
+          | nil => rw [scatter_cons_true_nil, scatter_cons_true_cons, scatter_cons_true_cons, ih qs [] ts ht']
+          | cons s0 ss => rw [scatter_cons_true_cons, scatter_cons_true_cons, scatter_cons_true_cons, ih qs ss ts ht']
+
+theorem scatter_idStr_idStr (m : List Bool) (N k : Nat) : scatter m (idStr N) (idStr k) = idStr N := by
+  induction m generalizing N k with
+  | nil => rw [scatter_nil_left]
+  | cons b ms ih =>
+    cases N with
+    | zero => rw [idStr_zero, scatter_nil_mid]
+    | succ N =>
+      rw [idStr_succ]
+      cases b with
+      | false => rw [scatter_cons_false, ih]
+      | true =>
+        cases k with
+        | zero => rw [idStr_zero, scatter_cons_true_nil, ← idStr_zero, ih]
+        | succ k => rw [idStr_succ, scatter_cons_true_cons, ih]
+
+theorem gather_xorS (m : List Bool) (a b : PStr) : gather m (xorS a b) = xorS (gather m a) (gather m b) := by
+  induction m generalizing a b with
+  | nil => simp [gather_nil_left, xorS_nil_left]
+  | cons c ms ih =>
+    cases a with
+    | nil => simp [gather_nil_right, xorS_nil_left]
+    | cons a0 as =>
+      cases b with
+      | nil => simp [gather_nil_right, xorS_nil_right]
+      | cons b0 bs =>
+        cases c with
+        | false => rw [xorS_cons, gather_cons_false, gather_cons_false, gather_cons_false, ih]
+        | true => rw [xorS_cons, gather_cons_true, gather_cons_true, gather_cons_true, xorS_cons, ih]
+
+theorem MaskedZero.xorS {m : List Bool} {a b : PStr} (ha : MaskedZero m a) (hb : MaskedZero m b) :
+    MaskedZero m (xorS a b) := by
+  unfold MaskedZero at *
+  rw [gather_xorS, ha, hb]
+  have := xorS_self (idStr (maskCount m)); rwa [length_idStr] at this
+
+theorem xorS_scatter_maskedZero (m : List Bool) (b s r : PStr) (hr : MaskedZero m r) :
+    xorS (scatter m b s) r = scatter m (xorS b r) s := by
+  induction m generalizing b s r with
+  | nil => simp [scatter_nil_left]
+  | cons c ms ih =>
+    cases b with
+    | nil => simp [scatter_nil_mid, xorS_nil_left]
+    | cons q qs =>
+      cases r with
+      | nil => simp [xorS_nil_right, scatter_nil_mid]
+      | cons r0 rs =>
+        cases c with
+        | false =>
+          have hr' : MaskedZero ms rs := by
+            unfold MaskedZero at *; rwa [gather_cons_false, maskCount_cons_false] at hr
+          rw [scatter_cons_false, xorS_cons, xorS_cons, scatter_cons_false, ih qs s rs hr']
+        | true =>
+          unfold MaskedZero at hr
+          rw [gather_cons_true, maskCount_cons_true, idStr_succ] at hr
+          have h0 : r0 = (false, false) := (List.cons.inj hr).1
+          have hr' : MaskedZero ms rs := (List.cons.inj hr).2
+          subst h0
+          cases s with
+          | nil => rw [scatter_cons_true_nil, xorS_cons, xorS_cons, scatter_cons_true_nil, ih qs [] rs hr']
+          | cons s0 ss =>
+            rw [scatter_cons_true_cons, xorS_cons, xorS_cons, scatter_cons_true_cons, ih qs ss rs hr',
+              xorQ_id_right]
+
+theorem ipowSum_scatter_maskedZero (m : List Bool) (b s r : PStr) (hr : MaskedZero m r) :
+    ipowSum (scatter m b s) r = ipowSum b r := by
+  induction m generalizing b s r with
+  | nil => simp [scatter_nil_left]
+  | cons c ms ih =>
+    cases b with
+    | nil => simp [scatter_nil_mid]
+    | cons q qs =>
+      cases r with
+      | nil => simp [ipowSum_nil_right]
+      | cons r0 rs =>
+        cases c with
+        | false =>
+          have hr' : MaskedZero ms rs := by
+            unfold MaskedZero at *; rwa [gather_cons_false, maskCount_cons_false] at hr
+          rw [scatter_cons_false, ipowSum_cons, ipowSum_cons, ih qs s rs hr']
+        | true =>
+          unfold MaskedZero at hr
+          rw [gather_cons_true, maskCount_cons_true, idStr_succ] at hr
+          have h0 : r0 = (false, false) := (List.cons.inj hr).1
+          have hr' : MaskedZero ms rs := (List.cons.inj hr).2
+          subst h0
+          cases s with
+          | nil => rw [scatter_cons_true_nil, ipowSum_cons, ipowSum_cons, ih qs [] rs hr']
+          | cons s0 ss =>
+            rw [scatter_cons_true_cons, ipowSum_cons, ipowSum_cons, ih qs ss rs hr', ipowQ_id_right, ipowQ_id_right]
+
+theorem scatter_offZero (m : List Bool) (r s : PStr) (hr : OffZero m r) (hs : s.length = maskCount m) :
+    scatter m r s = scatter m (idStr r.length) s := by
+  induction m generalizing r s with
+  | nil =>
+    unfold OffZero at hr; rw [scatter_nil_left] at hr
+    rw [scatter_nil_left, scatter_nil_left]; exact hr
+  | cons c ms ih =>
+    cases r with
+    | nil => rfl
+    | cons r0 rs =>
+      unfold OffZero at hr
+      rw [List.length_cons, idStr_succ]
+      cases c with
+      | false =>
+        rw [maskCount_cons_false] at hs
+        rw [maskCount_cons_false, scatter_cons_false, List.length_cons, idStr_succ] at hr
+        have h0 : r0 = (false, false) := (List.cons.inj hr).1
+        have hr' : OffZero ms rs := (List.cons.inj hr).2
+        rw [scatter_cons_false, scatter_cons_false, ih rs s hr' hs, h0]
+      | true =>
+        rw [maskCount_cons_true] at hs
+        rw [maskCount_cons_true, idStr_succ, scatter_cons_true_cons, List.length_cons, idStr_succ] at hr
+        have hr' : OffZero ms rs := (List.cons.inj hr).2
+        cases s with
+        | nil => simp at hs
+        | cons s0 ss =>
+          rw [scatter_cons_true_cons, scatter_cons_true_cons, ih rs ss hr' (by simpa using hs)]
+
+theorem p0Sum_gather_add (m : List Bool) (g : PStr) :
+    p0Sum g = p0Sum (gather m g) + p0Sum (scatter m g (idStr (maskCount m))) := by
+  induction m generalizing g with
+  | nil => simp [gather_nil_left, scatter_nil_left, p0Sum_nil]
+  | cons c ms ih =>
+    cases g with
+    | nil => simp [gather_nil_right, scatter_nil_mid, p0Sum_nil]
+    | cons q qs =>
+      cases c with
+      | false =>
+        rw [gather_cons_false, maskCount_cons_false, scatter_cons_false, p0Sum_cons, p0Sum_cons, ih qs]; omega
+      | true =>
+        rw [gather_cons_true, maskCount_cons_true, idStr_succ, scatter_cons_true_cons, p0Sum_cons, p0Sum_cons,
+          p0Sum_cons, ih qs]
+        simp [b2i]; omega
+
+/-! ## the embedded map: two independent accumulators -/
+
+/-- an `N`-qubit operator assembled from a masked part `A` (on `maskCount m` qubits) and a background `B` -/
+def J (m : List Bool) (A B : Pauli) : Pauli := ⟨scatter m B.g A.g, A.p + B.p⟩
+
+/-- multiplying by an embedded small row only touches the masked accumulator -/
+theorem J_mul_masked (m : List Bool) (A B s : Pauli) (R : PStr) (hR : R.length = m.length) (hRz : OffZero m R)
+    (hs : s.g.length = maskCount m) (hA : A.g.length = maskCount m) (hB : B.g.length = m.length) :
+    PEq (mul (J m A B) ⟨scatter m R s.g, s.p⟩) (J m (mul A s) B) := by
+  have hlen : (scatter m B.g A.g).length ≤ m.length := by rw [length_scatter, hB]; exact Nat.le_refl _
+  have hgs : gather m (scatter m B.g A.g) = A.g := gather_scatter m B.g A.g (by rw [hB]; exact Nat.le_refl _) hA
+  have hx : (xorS A.g s.g).length = maskCount m := by rw [length_xorS_eq _ _ (hA.trans hs.symm)]; exact hA
+  rw [scatter_offZero m R s.g hRz hs, hR]
+  refine ⟨?_, ?_⟩
+  · show xorS (scatter m B.g A.g) (scatter m (idStr m.length) s.g) = scatter m B.g (xorS A.g s.g)
+    rw [xorS_scatter_idStr_right m m.length s.g _ hlen, hgs, scatter_scatter m B.g A.g _ hx]
+  · show (A.p + B.p + s.p + ipow (scatter m B.g A.g) (scatter m (idStr m.length) s.g)) % 4 % 4 =
+      ((A.p + s.p + ipow A.g s.g) % 4 + B.p) % 4
+    rw [ipow_scatter_idStr_right m m.length s.g _ hlen, hgs]; omega
+
+/-- multiplying by a row that vanishes on the mask only touches the background accumulator -/
+theorem J_mul_unmasked (m : List Bool) (A B R : Pauli) (hRz : MaskedZero m R.g) :
+    PEq (mul (J m A B) R) (J m A (mul B R)) := by
+  refine ⟨?_, ?_⟩
+  · show xorS (scatter m B.g A.g) R.g = scatter m (xorS B.g R.g) A.g
+    exact xorS_scatter_maskedZero m B.g A.g R.g hRz
+  · show (A.p + B.p + R.p + ipow (scatter m B.g A.g) R.g) % 4 % 4 = (A.p + (B.p + R.p + ipow B.g R.g) % 4) % 4
+    unfold ipow
+    rw [ipowSum_scatter_maskedZero m B.g A.g R.g hRz]; omega
+
+/-- rows of the big map paired with `mask2`: right length, and vanishing off the mask (selected rows, to be
+    overwritten) or on the mask (kept rows) -/
+def RowsOK (m : List Bool) : List Bool → List Pauli → Prop
+  | b :: bs, R :: Rs => (R.g.length = m.length ∧ (if b then OffZero m R.g else MaskedZero m R.g)) ∧ RowsOK m bs Rs
+  | [], [] => True
+  | _, _ => False
+
+/-- coefficients at the selected / unselected positions, rows at the unselected positions -/
+def selT : List Bool → List Bool → List Bool
+  | b :: bs, c :: cs => if b then c :: selT bs cs else selT bs cs
+  | _, _ => []
+def selF : List Bool → List Bool → List Bool
+  | b :: bs, c :: cs => if b then selF bs cs else c :: selF bs cs
+  | _, _ => []
+def filterF : List Bool → List Pauli → List Pauli
+  | b :: bs, R :: Rs => if b then filterF bs Rs else R :: filterF bs Rs
+  | _, _ => []
+
+theorem combineAux_nil_left (rows : List Pauli) (acc : Pauli) : combineAux [] rows acc = acc := by
+  simp [combineAux]
+theorem combineAux_nil_right (c : List Bool) (acc : Pauli) : combineAux c [] acc = acc := by
+  cases c <;> simp [combineAux]
+theorem combineAux_cons (c : Bool) (cs : List Bool) (r : Pauli) (rs : List Pauli) (acc : Pauli) :
+    combineAux (c :: cs) (r :: rs) acc = combineAux cs rs (if c then mul acc r else acc) := rfl
+
+/-- combining through the embedded map = combining the small map on the masked accumulator and the kept rows
+    on the background accumulator -/
+theorem combineAux_embedRows (m : List Bool) (bs : List Bool) : ∀ (Rs small : List Pauli) (c : List Bool)
+    (acc A B : Pauli), RowsOK m bs Rs → (∀ s ∈ small, s.g.length = maskCount m) →
+    (bs.filter id).length ≤ small.length → A.g.length = maskCount m → B.g.length = m.length →
+    PEq acc (J m A B) →
+    PEq (combineAux c (embedRows m bs Rs small) acc)
+      (J m (combineAux (selT bs c) small A) (combineAux (selF bs c) (filterF bs Rs) B)) := by
+  induction bs with
+  | nil =>
+    intro Rs small c acc A B hok _ _ _ _ hacc
+    cases Rs with
+    | cons R Rs => simp [RowsOK] at hok
+    | nil =>
+      have h1 : selT [] c = [] := by simp [selT]
+      have h2 : selF [] c = [] := by simp [selF]
+      simp only [embedRows, h1, h2, combineAux_nil_left, combineAux_nil_right]
+      exact hacc
+  | cons b bs ih =>
+    intro Rs small c acc A B hok hsm hcnt hA hB hacc
+    cases Rs with
+    | nil => simp [RowsOK] at hok
+    | cons R Rs =>
+      obtain ⟨⟨hRl, hRz⟩, hok'⟩ := hok
+      cases c with
+      | nil =>
+        have h1 : selT (b :: bs) [] = [] := by simp [selT]
+        have h2 : selF (b :: bs) [] = [] := by simp [selF]
+        simp only [h1, h2, combineAux_nil_left]
+        exact hacc
+      | cons c0 cs =>
+        cases b with
+        | false =>
+          have hRz' : MaskedZero m R.g := by simpa using hRz
+          have e1 : embedRows m (false :: bs) (R :: Rs) small = R :: embedRows m bs Rs small := by
+            simp [embedRows]
+          have e2 : selT (false :: bs) (c0 :: cs) = selT bs cs := by simp [selT]
+          have e3 : selF (false :: bs) (c0 :: cs) = c0 :: selF bs cs := by simp [selF]
+          have e4 : filterF (false :: bs) (R :: Rs) = R :: filterF bs Rs := by simp [filterF]
+          rw [e1, e2, e3, e4, combineAux_cons, combineAux_cons]
+          have hcnt' : (bs.filter id).length ≤ small.length := by simpa using hcnt
+          cases c0 with
+          | false => exact ih Rs small cs acc A B hok' hsm hcnt' hA hB hacc
+          | true =>
+            refine ih Rs small cs (mul acc R) A (mul B R) hok' hsm hcnt' hA ?_ ?_
+            · rw [length_mul _ _ (hB.trans hRl.symm)]; exact hB
+            · exact (mul_congr_left hacc R).trans (J_mul_unmasked m A B R hRz')
+        | true =>
+          have hRz' : OffZero m R.g := by simpa using hRz
+          cases small with
+          | nil => simp at hcnt
+          | cons s ss =>
+            have hs := hsm s (by simp)
+            have hss : ∀ t ∈ ss, t.g.length = maskCount m := fun t ht => hsm t (by simp [ht])
+            have hcnt' : (bs.filter id).length ≤ ss.length := by simpa using hcnt
+            have e1 : embedRows m (true :: bs) (R :: Rs) (s :: ss) =
+                ⟨scatter m R.g s.g, s.p⟩ :: embedRows m bs Rs ss := by simp [embedRows]
+            have e2 : selT (true :: bs) (c0 :: cs) = c0 :: selT bs cs := by simp [selT]
+            have e3 : selF (true :: bs) (c0 :: cs) = selF bs cs := by simp [selF]
+            have e4 : filterF (true :: bs) (R :: Rs) = filterF bs Rs := by simp [filterF]
+            rw [e1, e2, e3, e4, combineAux_cons, combineAux_cons]
+            cases c0 with
+            | false => exact ih Rs ss cs acc A B hok' hss hcnt' hA hB hacc
+            | true =>
+              refine ih Rs ss cs _ (mul A s) B hok' hss hcnt' ?_ hB ?_
+              · rw [length_mul _ _ (hA.trans hs.symm)]; exact hA
+              · exact (mul_congr_left hacc _).trans (J_mul_masked m A B s R.g hRl hRz' hs hA hB)
+
+/-! ## the identity map, left-recursive form -/
+
+/-- prepend an identity wire -/
+def lift (R : Pauli) : Pauli := ⟨(false, false) :: R.g, R.p⟩
+
+theorem idRows_succ_succ (n k : Nat) :
+    idRows (n + 1) (k + 1) = ⟨unitX (n + 1) 0, 0⟩ :: ⟨unitZ (n + 1) 0, 0⟩ :: (idRows n k).map lift := by
+  induction k with
+  | zero => simp [idRows]
+  | succ k ih =>
+    show idRows (n + 1) (k + 1) ++ [(⟨unitX (n + 1) (k + 1), 0⟩ : Pauli), ⟨unitZ (n + 1) (k + 1), 0⟩] = _
+    rw [ih]
+    show _ = _ :: _ :: (idRows n k ++ [(⟨unitX n k, 0⟩ : Pauli), ⟨unitZ n k, 0⟩]).map lift
+    simp [lift, unitX_succ_succ, unitZ_succ_succ]
+
+theorem idMap_succ (n : Nat) :
+    idMap (n + 1) = ⟨(true, false) :: idStr n, 0⟩ :: ⟨(false, true) :: idStr n, 0⟩ :: (idMap n).map lift := by
+  unfold idMap; rw [idRows_succ_succ, unitX_succ_zero, unitZ_succ_zero]
+
+theorem idMap_zero : idMap 0 = [] := rfl
+
+theorem length_idMap (n : Nat) : (idMap n).length = 2 * n := by
+  induction n with
+  | zero => rfl
+  | succ n ih => rw [idMap_succ]; simp [ih]; omega
+
+theorem idMap_rows (n : Nat) : ∀ R ∈ idMap n, R.g.length = n ∧ R.p = 0 := by
+  induction n with
+  | zero => intro R hR; simp [idMap_zero] at hR
+  | succ n ih =>
+    intro R hR
+    rw [idMap_succ] at hR
+    simp only [List.mem_cons, List.mem_map] at hR
+    rcases hR with rfl | rfl | ⟨R', hR', rfl⟩
+    · simp [length_idStr]
+    · simp [length_idStr]
+    · have := ih R' hR'
+      simp [lift, this.1, this.2]
+
+theorem ipow_cons (a b : Q) (as bs : PStr) : ipow (a :: as) (b :: bs) = (ipowQ a b + ipowSum as bs) % 4 := rfl
+
+/-- lifted rows do not see the first wire -/
+theorem combineAux_lift (c : List Bool) (rows : List Pauli) (a : Q) (g : PStr) (p : Int) :
+    combineAux c (rows.map lift) ⟨a :: g, p⟩ =
+      ⟨a :: (combineAux c rows ⟨g, p⟩).g, (combineAux c rows ⟨g, p⟩).p⟩ := by
+  induction c generalizing rows g p with
+  | nil => simp [combineAux_nil_left]
+  | cons c0 cs ih =>
+    cases rows with
+    | nil => simp [combineAux_nil_right]
+    | cons r rs =>
+      rw [List.map_cons, combineAux_cons, combineAux_cons]
+      cases c0 with
+      | false => exact ih rs g p
+      | true =>
+        have : mul ⟨a :: g, p⟩ (lift r) = ⟨a :: (mul ⟨g, p⟩ r).g, (mul ⟨g, p⟩ r).p⟩ := by
+          apply pauli_ext
+          · show xorS (a :: g) ((false, false) :: r.g) = a :: xorS g r.g
+            rw [xorS_cons, xorQ_id_right]
+          · show (p + r.p + ipow (a :: g) ((false, false) :: r.g)) % 4 = (p + r.p + ipow g r.g) % 4
+            rw [ipow_cons, ipowQ_id_right]; unfold ipow; omega
+        simp only [if_true]
+        rw [this]
+        exact ih rs _ _
+
+/-- the identity map reproduces the string; the phase collects `-x·z` per qubit (the `p0` correction) -/
+theorem combineAux_idMap (n : Nat) : ∀ (g : PStr) (p : Int), g.length = n →
+    PEq (combineAux (flat g) (idMap n) ⟨idStr n, p⟩) ⟨g, p - p0Sum g⟩ := by
+  induction n with
+  | zero =>
+    intro g p hg
+    have : g = [] := by simpa using hg
+    subst this
+    exact ⟨rfl, by simp [flat, combineAux_nil_left, p0Sum_nil]⟩
+  | succ n ih =>
+    intro g p hg
+    cases g with
+    | nil => simp at hg
+    | cons q gs =>
+      obtain ⟨x, z⟩ := q
+      have hgs : gs.length = n := by simpa using hg
+      have hxx : xorS (idStr n) (idStr n) = idStr n := by
+        have := xorS_self (idStr n); rwa [length_idStr] at this
+      have hii : ipowSum (idStr n) (idStr n) = 0 := ipowSum_idStr_left _ _
+      have key : ∀ (a b : Q) (p q : Int), mul ⟨a :: idStr n, p⟩ ⟨b :: idStr n, q⟩ =
+          ⟨xorQ a b :: idStr n, (p + q + ipowQ a b) % 4⟩ := by
+        intro a b p q
+        apply pauli_ext
+        · show xorS (a :: idStr n) (b :: idStr n) = _
+          rw [xorS_cons, hxx]
+        · show (p + q + ipow (a :: idStr n) (b :: idStr n)) % 4 = (p + q + ipowQ a b) % 4
+          rw [ipow_cons, hii]; omega
+      rw [idMap_succ, flat_cons, idStr_succ, combineAux_cons, combineAux_cons]
+      obtain ⟨p1, hp1, hacc⟩ : ∃ p1 : Int, p1 % 4 = (p - b2i x * b2i z) % 4 ∧
+          (if (x, z).2 = true then
+            mul (if (x, z).1 = true then mul ⟨(false, false) :: idStr n, p⟩ ⟨(true, false) :: idStr n, 0⟩
+              else ⟨(false, false) :: idStr n, p⟩) ⟨(false, true) :: idStr n, 0⟩
+          else if (x, z).1 = true then mul ⟨(false, false) :: idStr n, p⟩ ⟨(true, false) :: idStr n, 0⟩
+            else ⟨(false, false) :: idStr n, p⟩) = ⟨(x, z) :: idStr n, p1⟩ := by
+        cases x <;> cases z <;> simp only [if_true, if_false, Bool.false_eq_true, key] <;>
+          (refine ⟨_, ?_, rfl⟩; simp [b2i, ipowQ, xorQ] <;> omega)
+      rw [hacc, combineAux_lift]
+      have h := ih gs p1 hgs
+      refine ⟨?_, ?_⟩
+      · simp only [h.1]
+      · have h2 := h.2
+        simp only [p0Sum_cons] at h2 ⊢
+        omega
+
+/-! ## the identity map against a mask; `transformMasked` -/
+
+theorem OffZero_lift (b : Bool) (ms : List Bool) (r : PStr) (h : OffZero ms r) :
+    OffZero (b :: ms) ((false, false) :: r) := by
+  unfold OffZero at *
+  cases b with
+  | false => rw [maskCount_cons_false, scatter_cons_false, h]; rfl
+  | true => rw [maskCount_cons_true, idStr_succ, scatter_cons_true_cons, h]; rfl
+
+theorem MaskedZero_lift (b : Bool) (ms : List Bool) (r : PStr) (h : MaskedZero ms r) :
+    MaskedZero (b :: ms) ((false, false) :: r) := by
+  unfold MaskedZero at *
+  cases b with
+  | false => rw [maskCount_cons_false, gather_cons_false, h]
+  | true => rw [maskCount_cons_true, gather_cons_true, h]; rfl
+
+theorem RowsOK_lift (b : Bool) (ms : List Bool) : ∀ (bs : List Bool) (Rs : List Pauli),
+    RowsOK ms bs Rs → RowsOK (b :: ms) bs (Rs.map lift)
+  | [], [], _ => trivial
+  | [], _ :: _, h => by simp [RowsOK] at h
+  | _ :: _, [], h => by simp [RowsOK] at h
+  | c :: bs, R :: Rs, h => by
+    obtain ⟨⟨hl, hz⟩, hrest⟩ := h
+    refine ⟨⟨by simp [lift, hl], ?_⟩, RowsOK_lift b ms bs Rs hrest⟩
+    cases c with
+    | false => simpa [lift] using MaskedZero_lift b ms R.g (by simpa using hz)
+    | true => simpa [lift] using OffZero_lift b ms R.g (by simpa using hz)
+
+theorem mask2_cons (b : Bool) (ms : List Bool) : mask2 (b :: ms) = b :: b :: mask2 ms := rfl
+
+theorem OffZero_unit (q : Q) (ms : List Bool) (N : Nat) : OffZero (true :: ms) (q :: idStr N) := by
+  unfold OffZero
+  rw [maskCount_cons_true, idStr_succ, scatter_cons_true_cons, scatter_idStr_idStr, List.length_cons,
+    length_idStr, idStr_succ]
+
+theorem MaskedZero_unit (q : Q) (ms : List Bool) (N : Nat) (h : ms.length ≤ N) :
+    MaskedZero (false :: ms) (q :: idStr N) := by
+  unfold MaskedZero
+  rw [maskCount_cons_false, gather_cons_false, gather_idStr ms N h]
+
+theorem RowsOK_idMap (m : List Bool) : RowsOK m (mask2 m) (idMap m.length) := by
+  induction m with
+  | nil => trivial
+  | cons b ms ih =>
+    rw [mask2_cons, List.length_cons, idMap_succ]
+    refine ⟨⟨by simp [length_idStr], ?_⟩, ⟨by simp [length_idStr], ?_⟩, RowsOK_lift b ms _ _ ih⟩
+    · cases b with
+      | false => simpa using MaskedZero_unit (true, false) ms ms.length (Nat.le_refl _)
+      | true => simpa using OffZero_unit (true, false) ms ms.length
+    · cases b with
+      | false => simpa using MaskedZero_unit (false, true) ms ms.length (Nat.le_refl _)
+      | true => simpa using OffZero_unit (false, true) ms ms.length
+
+theorem selT_mask2 (m : List Bool) (g : PStr) : selT (mask2 m) (flat g) = flat (gather m g) := by
+  induction m generalizing g with
+  | nil => simp [mask2, selT, gather_nil_left, flat]
+  | cons b ms ih =>
+    cases g with
+    | nil => simp [flat, selT, gather_nil_right]
+    | cons q qs =>
+      cases b with
+      | false => rw [mask2_cons, flat_cons, gather_cons_false]; simp [selT, ih]
+      | true => rw [mask2_cons, flat_cons, gather_cons_true, flat_cons]; simp [selT, ih]
+
+theorem count_mask2 (m : List Bool) : ((mask2 m).filter id).length = 2 * maskCount m := by
+  induction m with
+  | nil => rfl
+  | cons b ms ih =>
+    cases b with
+    | false => rw [mask2_cons, maskCount_cons_false]; simpa using ih
+    | true => rw [mask2_cons, maskCount_cons_true]; simp [ih]; omega
+
+/-- the kept rows with the unmasked coefficients = all rows with the masked coefficients cleared -/
+theorem combineAux_selF (m : List Bool) : ∀ (g : PStr) (rows : List Pauli) (acc : Pauli), g.length = m.length →
+    combineAux (selF (mask2 m) (flat g)) (filterF (mask2 m) rows) acc =
+      combineAux (flat (scatter m g (idStr (maskCount m)))) rows acc := by
+  induction m with
+  | nil =>
+    intro g rows acc hg
+    have : g = [] := by simpa using hg
+    subst this
+    simp [mask2, selF, scatter_nil_left, combineAux_nil_left, flat]
+  | cons b ms ih =>
+    intro g rows acc hg
+    cases g with
+    | nil => simp at hg
+    | cons q qs =>
+      have hqs : qs.length = ms.length := by simpa using hg
+      rw [mask2_cons, flat_cons]
+      cases b with
+      | false =>
+        rw [maskCount_cons_false, scatter_cons_false, flat_cons]
+        match rows with
+        | [] => simp [filterF, combineAux_nil_right]
+        | [a] => simp [selF, filterF, combineAux_cons, combineAux_nil_right]
+        | a :: a' :: rest => simp [selF, filterF, combineAux_cons, ih qs _ _ hqs]
+      | true =>
+        rw [maskCount_cons_true, idStr_succ, scatter_cons_true_cons, flat_cons]
+        match rows with
+        | [] => simp [filterF, combineAux_nil_right]
+        | [a] => simp [selF, filterF, combineAux_cons, combineAux_nil_right]
+        | a :: a' :: rest => simp [selF, filterF, combineAux_cons, ih qs _ _ hqs]
+
+theorem length_embedRows (m : List Bool) (bs : List Bool) : ∀ (Rs small : List Pauli),
+    (embedRows m bs Rs small).length = Rs.length := by
+  induction bs with
+  | nil => intro Rs small; simp [embedRows]
+  | cons b bs ih =>
+    intro Rs small
+    cases Rs with
+    | nil => simp [embedRows]
+    | cons R Rs =>
+      cases b with
+      | false => simp [embedRows, ih]
+      | true =>
+        cases small with
+        | nil => simp [embedRows, ih]
+        | cons s ss => simp [embedRows, ih]
+
+theorem transformMasked_eq_embed (M : List Pauli) (m : List Bool) (P : Pauli) (n : Nat)
+    (hM : M.length = 2 * n) (hMr : ∀ R ∈ M, R.g.length = n) (hm : maskCount m = n) (hl : m.length = P.g.length) :
+    PEq (transformMasked M m P) (transform (embed (idMap P.g.length) M m) P) := by
+  subst hm
+  rw [← hl]
+  have hE : mapN (embed (idMap m.length) M m) = m.length := by
+    apply mapN_of_length
+    unfold embed; rw [length_embedRows, length_idMap]
+  have hJ0 : PEq ⟨idStr m.length, 0⟩ (J m ⟨idStr (maskCount m), 0⟩ ⟨idStr m.length, 0⟩) := by
+    refine ⟨?_, rfl⟩
+    show idStr m.length = scatter m (idStr m.length) (idStr (maskCount m))
+    rw [scatter_idStr_idStr]
+  have key := combineAux_embedRows m (mask2 m) (idMap m.length) M (flat P.g) _ _ _ (RowsOK_idMap m) hMr
+    (by rw [count_mask2, hM]; exact Nat.le_refl _) (length_idStr _) (length_idStr _) hJ0
+  rw [selT_mask2, combineAux_selF m P.g _ _ hl.symm] at key
+  have hg' : (scatter m P.g (idStr (maskCount m))).length = m.length := by rw [length_scatter, hl]
+  have hB := combineAux_idMap m.length _ 0 hg'
+  have hcS : (combineAux (flat (gather m P.g)) M ⟨idStr (maskCount m), 0⟩).g.length = maskCount m :=
+    length_combineAux _ _ _ _ hMr (length_idStr _)
+  have hp0 := p0Sum_gather_add m P.g
+  unfold transformMasked transform combine embed
+  unfold embed at hE
+  rw [hE, mapN_of_length M _ hM]
+  refine ⟨?_, ?_⟩
+  · show scatter m P.g (combineAux (flat (gather m P.g)) M ⟨idStr (maskCount m), 0⟩).g = _
+    rw [key.1]
+    show _ = scatter m _ _
+    rw [hB.1, scatter_scatter _ _ _ _ hcS]
+  · have k2 := key.2
+    have b2 := hB.2
+    simp only [J] at k2
+    simp only [p0] at k2 b2 ⊢
+    omega
+
+/-! ## rotation maps -/
+
+theorem Sympl_cons (a b : Pauli) (rest : List Pauli) (hab : acq a.g b.g = 1)
+    (hx : ∀ c ∈ rest, acq a.g c.g = 0 ∧ acq b.g c.g = 0) (hr : Sympl rest) : Sympl (a :: b :: rest) := by
+  have hba : acq b.g a.g = 1 := by rw [acq_symm]; exact hab
+  intro i j hi hj
+  match i, j, hi, hj with
+  | 0, 0, _, _ => simp [rowAt_cons_zero, acq_self]
+  | 0, 1, _, _ => simp [rowAt_cons_zero, rowAt_cons_succ, hab]
+  | 1, 0, _, _ => simp [rowAt_cons_zero, rowAt_cons_succ, hba]
+  | 1, 1, _, _ => simp [rowAt_cons_zero, rowAt_cons_succ, acq_self]
+  | 0, j + 2, _, hj =>
+    have hj' : j < rest.length := by simp at hj; omega
+    rw [rowAt_cons_zero, rowAt_cons_succ, rowAt_cons_succ, (hx _ (rowAt_mem rest j hj')).1]
+    simp
+  | 1, j + 2, _, hj =>
+    have hj' : j < rest.length := by simp at hj; omega
+    rw [rowAt_cons_succ, rowAt_cons_zero, rowAt_cons_succ, rowAt_cons_succ, (hx _ (rowAt_mem rest j hj')).2]
+    simp
+  | i + 2, 0, hi, _ =>
+    have hi' : i < rest.length := by simp at hi; omega
+    rw [rowAt_cons_zero, rowAt_cons_succ, rowAt_cons_succ, acq_symm, (hx _ (rowAt_mem rest i hi')).1]
+    simp
+  | i + 2, 1, hi, _ =>
+    have hi' : i < rest.length := by simp at hi; omega
+    rw [rowAt_cons_succ, rowAt_cons_succ, rowAt_cons_succ, rowAt_cons_zero, acq_symm,
+      (hx _ (rowAt_mem rest i hi')).2]
+    simp
+  | i + 2, j + 2, hi, hj =>
+    have hi' : i < rest.length := by simp at hi; omega
+    have hj' : j < rest.length := by simp at hj; omega
+    rw [rowAt_cons_succ, rowAt_cons_succ, rowAt_cons_succ, rowAt_cons_succ, hr i j hi' hj']
+    have e1 : (i + 2) / 2 = i / 2 + 1 := by omega
+    have e2 : (j + 2) / 2 = j / 2 + 1 := by omega
+    simp [e1, e2]
+
+theorem rowAt_map (f : Pauli → Pauli) (L : List Pauli) (i : Nat) (h : i < L.length) :
+    rowAt (L.map f) i = f (rowAt L i) := by
+  rw [rowAt_of_lt _ _ (by simpa using h), rowAt_of_lt _ _ h]; simp
+
+theorem acq_cons (a b : Q) (as bs : PStr) : acq (a :: as) (b :: bs) = (acqQ a b + acqSum as bs) % 2 := rfl
+
+theorem Sympl_map_lift (Rs : List Pauli) (h : Sympl Rs) : Sympl (Rs.map lift) := by
+  intro i j hi hj
+  have hi' : i < Rs.length := by simpa using hi
+  have hj' : j < Rs.length := by simpa using hj
+  rw [rowAt_map lift Rs i hi', rowAt_map lift Rs j hj', ← h i j hi' hj']
+  show acq ((false, false) :: _) ((false, false) :: _) = _
+  rw [acq_cons, acqQ_id_left]; unfold acq; omega
+
+theorem Sympl_idMap (n : Nat) : Sympl (idMap n) := by
+  induction n with
+  | zero => intro i j hi; simp [idMap_zero] at hi
+  | succ n ih =>
+    rw [idMap_succ]
+    apply Sympl_cons _ _ _ _ _ (Sympl_map_lift _ ih)
+    · show acq ((true, false) :: idStr n) ((false, true) :: idStr n) = 1
+      rw [acq_cons, acqSum_idStr_left]; decide
+    · intro c hc
+      obtain ⟨c', _, rfl⟩ := List.mem_map.1 hc
+      refine ⟨?_, ?_⟩
+      · show acq ((true, false) :: idStr n) ((false, false) :: c'.g) = 0
+        rw [acq_cons, acqSum_idStr_left, acqQ_id_right]; rfl
+      · show acq ((false, true) :: idStr n) ((false, false) :: c'.g) = 0
+        rw [acq_cons, acqSum_idStr_left, acqQ_id_right]; rfl
+
+theorem rotationMap_valid (G : Pauli) (hG : G.p % 2 = 0) : ValidMap (rotationMap G) G.g.length := by
+  unfold rotationMap rotateRows
+  refine ⟨by rw [List.length_map, length_idMap], ?_, ?_⟩
+  · intro R hR
+    obtain ⟨R0, hR0, rfl⟩ := List.mem_map.1 hR
+    obtain ⟨hl0, hp0⟩ := idMap_rows _ R0 hR0
+    refine ⟨by rw [length_rotate G R0 hl0.symm]; exact hl0, ?_⟩
+    rcases acq_bit G.g R0.g with h | h
+    · rw [rotate_of_acq_zero G R0 h, hp0]; rfl
+    · rw [rotate_of_acq_one G R0 h]
+      have hpar := ipow_parity R0.g G.g
+      rw [acq_symm, h] at hpar
+      simp only [hp0]; omega
+  · intro i j hi hj
+    have hi' : i < (idMap G.g.length).length := by rw [length_idMap]; exact hi
+    have hj' : j < (idMap G.g.length).length := by rw [length_idMap]; exact hj
+    rw [rowAt_map _ _ i hi', rowAt_map _ _ j hj',
+      rotate_acq G _ _ (idMap_rows _ _ (rowAt_mem _ i hi')).1.symm (idMap_rows _ _ (rowAt_mem _ j hj')).1.symm]
+    exact Sympl_idMap _ i j hi' hj'
+
+/-- a Hermitian rotation commutes with `pauli_combine` -/
+theorem combineAux_rotate (G : Pauli) (hG : G.p % 2 = 0) (c : List Bool) : ∀ (rows : List Pauli) (acc : Pauli),
+    (∀ R ∈ rows, R.g.length = G.g.length) → acc.g.length = G.g.length →
+    PEq (rotate G (combineAux c rows acc)) (combineAux c (rotateRows G rows) (rotate G acc)) := by
+  induction c with
+  | nil => intro rows acc _ _; simp only [combineAux_nil_left]; exact PEq.refl _
+  | cons c0 cs ih =>
+    intro rows acc hl ha
+    cases rows with
+    | nil => simp only [rotateRows, List.map_nil, combineAux_nil_right]; exact PEq.refl _
+    | cons r rs =>
+      have hr := hl r (by simp)
+      have hrs : ∀ R ∈ rs, R.g.length = G.g.length := fun R hR => hl R (by simp [hR])
+      show PEq (rotate G (combineAux (c0 :: cs) (r :: rs) acc))
+        (combineAux (c0 :: cs) (rotate G r :: rotateRows G rs) (rotate G acc))
+      rw [combineAux_cons, combineAux_cons]
+      cases c0 with
+      | false => exact ih rs acc hrs ha
+      | true =>
+        simp only [if_true]
+        refine (ih rs (mul acc r) hrs ?_).trans (combineAux_congr _ _ (rotate_mul G acc r hG ha.symm hr.symm))
+        rw [length_mul _ _ (ha.trans hr.symm)]; exact ha
+
+theorem rotate_of_g_eq (G X Y : Pauli) (h : X.g = Y.g) :
+    (rotate G X).g = (rotate G Y).g ∧ (rotate G X).p % 4 = ((rotate G Y).p + X.p - Y.p) % 4 := by
+  rcases acq_bit G.g Y.g with h1 | h1
+  · rw [rotate_of_acq_zero G Y h1, rotate_of_acq_zero G X (by rw [h]; exact h1)]
+    exact ⟨h, by omega⟩
+  · rw [rotate_of_acq_one G Y h1, rotate_of_acq_one G X (by rw [h]; exact h1)]
+    simp only [h]
+    exact ⟨trivial, by omega⟩
+
+theorem rotationMap_acts_as_rotate (G P : Pauli) (hG : G.p % 2 = 0) (hl : G.g.length = P.g.length) :
+    PEq (transform (rotationMap G) P) (rotate G P) := by
+  have hN : mapN (rotationMap G) = G.g.length := by
+    apply mapN_of_length; unfold rotationMap rotateRows; rw [List.length_map, length_idMap]
+  have hid : rotate G ⟨idStr G.g.length, 0⟩ = ⟨idStr G.g.length, 0⟩ :=
+    rotate_of_acq_zero G _ (acq_idStr_right _ _)
+  have h1 := combineAux_rotate G hG (flat P.g) (idMap G.g.length) ⟨idStr G.g.length, 0⟩
+    (fun R hR => (idMap_rows _ R hR).1) (length_idStr _)
+  rw [hid] at h1
+  have h2 := combineAux_idMap G.g.length P.g 0 hl.symm
+  have h3 := rotate_congr_PEq G h2
+  have h4 := rotate_of_g_eq G ⟨P.g, 0 - p0Sum P.g⟩ P rfl
+  unfold transform combine
+  rw [hN]
+  unfold rotationMap
+  refine ⟨?_, ?_⟩
+  · show (combineAux (flat P.g) (rotateRows G (idMap G.g.length)) ⟨idStr G.g.length, 0⟩).g = _
+    rw [← h1.1, h3.1, h4.1]
+  · have e1 := h1.2; have e3 := h3.2; have e4 := h4.2
+    simp only [p0] at e4 ⊢
+    omega
+
+end Tr
 end PC
